@@ -182,6 +182,7 @@ func (s *Writer) introduceSegment(next *segmentIntroduction, introduceSnapshotEp
 func (s *Writer) introducePersist(persist *persistIntroduction, introduceSnapshotEpoch uint64) {
 	atomic.AddUint64(&s.stats.TotIntroducePersistBeg, 1)
 	defer atomic.AddUint64(&s.stats.TotIntroducePersistEnd, 1)
+	verifHook("intro.persist.begin", s)
 
 	root := s.currentSnapshot()
 	defer func() { _ = root.Close() }()
@@ -243,6 +244,7 @@ func (s *Writer) introducePersist(persist *persistIntroduction, introduceSnapsho
 func (s *Writer) introduceMerge(nextMerge *segmentMerge, introduceSnapshotEpoch uint64) {
 	atomic.AddUint64(&s.stats.TotIntroduceMergeBeg, 1)
 	defer atomic.AddUint64(&s.stats.TotIntroduceMergeEnd, 1)
+	verifHook("intro.merge.begin", s)
 
 	root := s.currentSnapshot()
 	defer func() { _ = root.Close() }()
